@@ -272,7 +272,7 @@ def run(ctx, selftest=False):
                 "TLC enumerates + a seeded 12% sample of the JokerPrior.default argument table; distinct = distinct cases; trivial = "
                 "the all-ok cases")
     ctx.assumptions = ["TLC/SANY", "pymc variable construction", "any exception counts as 'raises'"]
-    ctx.model_check("ValidationMC", "MC_Validation.cfg", coverage=True)
+    ctx.model_check("ValidationMC", "MC_Validation.cfg" if quick else "MC_Validation_thorough.cfg", coverage=True)
     r = ctx.model_check("ValidationMC", "MC_Validation_export1.cfg" if quick else "MC_Validation_export2.cfg", workers=1)
     rnd = random.Random(ctx.seed * 22801 + 18)
     cases = []
